@@ -900,6 +900,15 @@ def header_mutations(rng, tier):
     for k in range(0, 7):
         for last in (0x01, 0x7f):
             out.append([0x49, 0x83, 0x42, 0x00, 0x00] + [0xff] * k + [last] + [0x81] * k + [last, 0x00, 0x00])
+    # every NAL unit type of both codecs as the only / the second unit of an access unit (key-frame detection is by type)
+    for t in range(64):
+        out.append(SC3 + [t << 1, 0x01, 0xaf, 0x11])
+        out.append(SC4 + [0x02, 0x01, 0xd0] + SC3 + [t << 1, 0x01, 0xaf])
+        out.append(SC4 + [(t << 1) | 0x81, 0x01, 0xaf])            # forbidden bit / layer id bit set
+    for t in range(32):
+        out.append(SC3 + [0x60 | t, 0x88, 0x84])
+        out.append(SC4 + [0x41, 0x9a] + SC3 + [0x20 | t, 0x88])
+        out.append(SC4 + [0x80 | t, 0x88])
     for cnt in (0x00, 0x01, 0x3f, 0x40, 0x7f, 0x80, 0xbf, 0xc1, 0xff):
         out.append([0x03, cnt])
         out.append([0xff, cnt, 0xff, 0xff, 0xfe, 1, 2, 3])
